@@ -618,12 +618,15 @@ Definition add_backend (s : state) (c : nat) (nb : backend) : state * bool :=
     (with_cluster s1 c (mkC l' (lb_rebuild s1 (c_lb cl) l')), true)
   end.
 
-(** [BackendList::remove_backend]: the ids dropped, in list order *)
-Definition remove_backend (s : state) (c : nat) (addr : N) : state * list N :=
+(** [BackendList::remove_backend]: the backend (id, address) — the identity [add_backend] and the
+    configuration state use — and nothing else at that address; the ids dropped, in list order *)
+Definition is_backend (hp : heap) (id addr : N) (h : nat) : bool :=
+  (b_addr (hget hp h) =? addr) && (b_id (hget hp h) =? id).
+Definition remove_backend (s : state) (c : nat) (id addr : N) : state * list N :=
   let cl := cget s c in
   let hp := s_heap s in
-  let gone := filter (fun h => b_addr (hget hp h) =? addr) (c_list cl) in
-  let l' := filter (fun h => negb (b_addr (hget hp h) =? addr)) (c_list cl) in
+  let gone := filter (is_backend hp id addr) (c_list cl) in
+  let l' := filter (fun h => negb (is_backend hp id addr h)) (c_list cl) in
   let p' := match gone with [] => c_lb cl | _ => lb_rebuild s (c_lb cl) l' end in
   (with_cluster s c (mkC l' p'), map (fun h => b_id (hget hp h)) gone).
 
@@ -650,7 +653,7 @@ Inductive op :=
 | OHash (a h1 h2 : N)
 | OScore (k a : N) (w : option Z) (bits : N)
 | OAdd (c : nat) (id a : N) (sticky : option N) (w : option Z) (backup : bool)
-| ORemove (c : nat) (a : N)
+| ORemove (c : nat) (id a : N)
 | OPolicy (c : nat) (k : pkind) (m : metric) (size : N)
 | OClosing (h : nat)
 | OHealth (c : nat) (a : N) (ok : bool) (thr : N)
@@ -674,7 +677,7 @@ Definition apply_op (s : state) (o : op) : state :=
   | OHash a h1 h2 => mkS (s_heap s) (s_cl s) (s_now s) ((a, (h1, h2)) :: s_hashes s) (s_scores s)
   | OScore k a w bits => mkS (s_heap s) (s_cl s) (s_now s) (s_hashes s) (((k, a, w), bits) :: s_scores s)
   | OAdd c id a sticky w backup => fst (add_backend s c (backend_new id a sticky w backup (s_now s)))
-  | ORemove c a => fst (remove_backend s c a)
+  | ORemove c id a => fst (remove_backend s c id a)
   | OPolicy c k m size => set_policy s c k m size
   | OClosing h => on_handle s h (fun b => set_status b Closing)
   | OHealth c a ok thr =>
